@@ -288,7 +288,7 @@ Section Sess.
   Lemma step_pwd w cwd arg :
     ready w cwd ->
     exists w' o, stp w (mkev "pwd" arg DNone) = (w', o) /\ o_codes o = [code "257"] /\
-      o_info o = [34] ++ path_str cwd ++ [34] /\ w_fs w' = w_fs w /\ ready w' cwd.
+      o_info o = [34] ++ dbl_quote (path_str cwd) ++ [34] /\ w_fs w' = w_fs w /\ ready w' cwd.
   Proof. intros Hrd. start "pwd"%string "pwd"%string false. finish. Qed.
 
   Lemma step_pasv w cwd arg :
@@ -546,8 +546,8 @@ Section Compose.
          /\ rest = split_lines k /\ parse_directory_response (last info []) = mkp 1 P) /\
       (* ... the path the client gets denotes the node again *)
       target (s_cwd (w_s w3)) (mkp 1 P) = P /\
-      (* the text the session model records for the reply is that reply when no quote is involved *)
-      (noquote (to_str (mkp 1 P)) -> o_info o3 = pwd_info (mkp 1 P)).
+      (* the text the session model records for the reply is that reply (quotes doubled) *)
+      o_info o3 = pwd_info (mkp 1 P).
   Proof.
     intros Hrd Hp Ht Hrw HP Hne HvP. rewrite (cstep_path w _ _ p DNone v_cwd Hp).
     destruct (step_cwd users ui u Hu w cwd (to_str p) P chP Hrd) as [w2 [o2 [E2 [Hc2 [Hf2 Hr2]]]]];
@@ -558,7 +558,7 @@ Section Compose.
     assert (HvalidP : valid_path (mkp 1 P)) by (split; [right; reflexivity|split; assumption]).
     repeat split; try assumption; try apply Hr2; try apply Hr3; try congruence.
     - intro k. rewrite Hcw3. apply pwd_roundtrip_valid; [exact good_257|exact HvalidP].
-    - intro Hq. rewrite Hi3, path_str_to_str. unfold pwd_info. rewrite (dbl_noquote _ Hq). reflexivity.
+    - rewrite Hi3, path_str_to_str. reflexivity.
   Qed.
 
   (* ---- MLSD / LIST of a directory: the model's listing of exactly that node ---- *)
